@@ -196,6 +196,10 @@ impl WorldC {
         if !self.bulk_addrs.is_empty() && rng.chance(1, 10) {
             return rng.pick(&self.bulk_addrs).clone();
         }
+        // a multisig may be a member of the group it votes with (and then proposes to itself from an executed proposal)
+        if !self.msigs.is_empty() && rng.chance(1, if self.cfg.profile == "C15" { 5 } else { 12 }) {
+            return rng.pick(&self.msigs).addr.clone();
+        }
         rng.pick(&self.universe).clone()
     }
 
@@ -456,6 +460,12 @@ impl WorldC {
             _ => 2,
         };
         let self_admin = self.last_group_obs.as_ref().and_then(|o| o.admin.clone()).map(|a| a == m.addr).unwrap_or(false);
+        // a multisig that is a member of its own group may open proposals itself (from an executed proposal)
+        if self.cur_members.contains_key(&m.addr) && rng.chance(1, 3) {
+            self.meter.hit("multisig_proposes_to_itself");
+            let inner = json!({"propose":{"title":"by the multisig","description":"self","msgs":[],"latest":null}});
+            return vec![wasm_exec(&m.addr, &inner, vec![])];
+        }
         // a treasury may spend whatever it holds — including the coins other proposers deposited
         if let (Some(d), true) = (&m.deposit, rng.chance(1, 8)) {
             let to = self.pick_user(rng);
